@@ -6,7 +6,7 @@ from harness.common import Broken, COQ, REPO
 from translator import pygen
 
 PID = "C02"
-GENS = ["GenIter", "GenLazyPool", "GenMerge"]
+GENS = ["GenIter", "GenLazyPool", "GenMerge", "GenPipeline"]
 
 
 def pipeline_jobs(ctx, n):
@@ -21,8 +21,71 @@ def pipeline_jobs(ctx, n):
                 fp = rng.choice([1, 2, 3, 4, 9])
                 reqs.append({"iface": iface, "split": rng.choice([0, 0, 0, 1, 2]), "shuffle": sh, "repeat": False, "file_parallelism": fp,
                              "process": rng.random() < 0.3 and iface != "tf"})
+        # the same interfaces with a fixed LCG seed and a known final shuffle: their output is then a function of the inputs,
+        # compared element by element with the generated composition model (GenPipeline)
+        for iface in iterlib.ifaces_for(spec):
+            if iface not in ("sync", "async", "concurrent"):
+                continue
+            for _k in range(2 if ctx.quick else 4):
+                sh = rng.choice([0, 1, 2, 3, 7, 50])
+                fp = 1 if (iface == "concurrent" and sh) else rng.choice([1, 2, 3, 4])
+                reqs.append({"iface": iface, "split": 0, "shuffle": sh, "repeat": False, "file_parallelism": fp, "process": rng.random() < 0.3,
+                             "seed": rng.randrange(1, 2 ** 30)})
         jobs.append({"dataset": spec, "requests": reqs})
     return jobs
+
+
+def composition_check(PID, jobs, res):
+    """Model (coqc) vs implementation for every seeded request; returns (compared, [Broken])."""
+    lines = ["Require Import Sedpack.Model.Base Sedpack.Generated.GenIter Sedpack.Model.Iter Sedpack.Model.PipeBase Sedpack.Generated.GenPipeline.",
+             "From Coq Require Import NArith.", "Open Scope nat_scope.",
+             "Definition rd (tab : list (list N)) (p : nat) : list N := nth p tab [].",
+             "Definition pr (x : N) : N := (x + 100000)%N."]
+    todo = []
+    for job, r in zip(jobs, res):
+        if "build_error" in r:
+            continue
+        for q, o in zip(job["requests"], r["results"]):
+            if q.get("seed") is None or o.get("skipped") or o.get("hang") or o.get("error"):
+                continue
+            ref = r["reference"].get(str(q["split"]))
+            if ref is None:
+                continue
+            tab = "[" + "; ".join("[" + "; ".join(f"{x}%N" for x in ex) + "]" for ex, _m in ref["shards"]) + "]"
+            paths = common.clist(list(range(len(ref["shards"]))))
+            pk = f"(lcg_pick {q['seed']}%N)"
+            hp = "true" if q.get("process") else "false"
+            if q["iface"] == "sync":
+                t = f"ani nat N (rd {tab}) pr {pk} (@rev nat) {pk} (@rev N) {q['shuffle']} {hp} {paths}"
+            elif q["iface"] == "concurrent":
+                t = f"anc nat N (rd {tab}) pr {pk} (@rev nat) {pk} (fun l => l) {q['shuffle']} {q['file_parallelism']} {hp} {paths}"
+            else:
+                t = f"ana nat N (rd {tab}) pr {pk} (@rev nat) {pk} {q['shuffle']} {q['file_parallelism']} {hp} {paths}"
+            lines.append(f"Eval vm_compute in {t}.")
+            todo.append((job, q, o))
+    if not todo:
+        return 0, []
+    ans = common.coq_answers(common.coq_eval(PID, "composition", "\n".join(lines) + "\n"))
+    bad = []
+    for (job, q, o), m in zip(todo, ans):
+        if list(m) != list(o["out"]):
+            bad.append(Broken("correspondence: the generated composition model and the interface disagree under a fixed seed",
+                              json.dumps({"request": q, "dataset": job["dataset"], "model": list(m)[:40], "impl": o["out"][:40]})))
+    return len(todo), bad
+
+
+def lazy_pool_search(ctx):
+    from harness.props import c13
+    trials = [t for t in c13.gen_trials(ctx) if t.get("fail") is None and t.get("take") is None and not t.get("before")]
+    res = []
+    for i in range(0, len(trials), 100):
+        res += common.run_impl("lazypool_run.py", {"trials": trials[i:i + 100]}, timeout=1200)["results"]
+    out = []
+    for t, r in zip(trials, res):
+        for sig, text in c13.impl_oracle(t, r):
+            if sig in ("wrong-multiset", "duplicate-result", "phantom-result", "deadlock:normal"):
+                out.append((t, r, sig, text))
+    return out
 
 
 def run(ctx):
@@ -75,6 +138,7 @@ def run(ctx):
     # 2. combinators: model == implementation element by element
     dis = 0
     ncomb = 0
+    ncompo = 0
     if not any(tr.values()):
         try:
             rc, log = common.coq_make(["Model/Iter.vo"])
@@ -83,8 +147,20 @@ def run(ctx):
             sb, rr, _r, br, dis = combinators.check(ctx, PID)
             ncomb = len(sb) + len(rr)
             broken += br
+            rc, log = common.coq_make(["Generated/GenPipeline.vo"])
+            if rc:
+                raise Broken("Generated/GenPipeline.v no longer compiles", log[-2000:])
+            ncompo, br2 = composition_check(PID, jobs, res)
+            broken += br2[:3]
+            dis += len(br2)
         except Broken as b:
             broken.append(b)
+    if broken and not ctx.violations and any("LazyPool" in b.what or "lazy" in b.what.lower() or "c02_lazy_pool" in b.detail for b in broken):
+        # the lazy-pool obligation no longer checks: search the real pool, driven one queue operation at a time, for a schedule that loses or duplicates a result
+        lost = lazy_pool_search(ctx)
+        for t, r, sig, text in lost[:3]:
+            ctx.report("lazy-pool-" + sig, f"LazyPool.imap_unordered T={t['T']} n={t['n']} under schedule strategy {t['strategy']}: {text}",
+                       {"trial": t, "impl": {k: v for k, v in r.items() if k != "trace"}, "trace": r["trace"][:300]})
     if broken and not ctx.violations:
         b = broken[0]
         ctx.report(f"broken:{b.what}", b.what, {"unchecked": b.what, "detail": b.detail[-3000:]}, found_input=False)
@@ -102,7 +178,7 @@ def run(ctx):
         "evaluations": runs + ncomb, "distinct_nontrivial": len(nontrivial) + ncomb,
         "rule": "pipelines: generated datasets (1..3 splits, 1..9 shards, short last shards, nested/multi-writer lists, fb/npz/tfrec x compressions) x interface x shuffle in {0,1,2,3,7,50,1000} x "
                 "file_parallelism in {1,2,3,4,9} x process_record on/off; distinct by (format, interface, shuffle, parallelism, shards, process). combinators: lists of length 0..21 x buffer sizes around the length",
-        "pipeline_runs": runs, "combinator_cases": ncomb, "model_vs_impl_disagreements": dis,
+        "pipeline_runs": runs, "combinator_cases": ncomb, "composition_cases_model_vs_interface": ncompo, "model_vs_impl_disagreements": dis,
         "traces_validated_against_impl": ncomb - dis,
     })
     ctx.assumptions += ["repeat=False", "every shard file readable (C07 covers damage)"]
@@ -110,6 +186,13 @@ def run(ctx):
 
 def replay(ctx, rp):
     job = rp["replay"].get("job")
+    if rp["replay"].get("trial"):
+        from harness.props import c13
+        t = rp["replay"]["trial"]
+        r = common.run_impl("lazypool_run.py", {"trials": [t]}, timeout=600)["results"][0]
+        bad = c13.impl_oracle(t, r)
+        print(json.dumps({"trial": t, "out": r.get("out"), "oracle": bad})[:2000])
+        return not bad
     if not job:
         print("no concrete input in this replay file:", rp["replay"].get("unchecked"))
         return False
